@@ -64,6 +64,8 @@ type fnExec struct {
 	inputs   []*Term // input symbols for model extraction
 	errors   []string
 	strIDs   map[string]int
+	wfSeen     map[int]bool
+	opaque     map[*Term]*Term // opaque term -> exact definition
 	atCallHits map[*AtCall]int
 	variants   map[*loopInfo]*Term
 }
@@ -166,7 +168,26 @@ func (x *fnExec) load(st *State, p Val, t types.Type) Val {
 	}
 	v := unflatten(t, &ts)
 	x.recordRefs(v)
+	x.heapWF(st, v)
 	return v
+}
+
+// heapWF assumes the Go type invariants of values read from memory (slice headers are well formed).
+func (x *fnExec) heapWF(st *State, v Val) {
+	switch v.K {
+	case VSlice:
+		if v.base().Op != "lit" {
+			t := sliceWF(v)
+			if !x.wfSeen[t.id] {
+				x.wfSeen[t.id] = true
+				x.facts = append(x.facts, Fact{x.next(), t})
+			}
+		}
+	case VStruct, VTuple:
+		for _, f := range v.Fs {
+			x.heapWF(st, f)
+		}
+	}
 }
 
 func (x *fnExec) recordRefs(v Val) {
@@ -648,7 +669,7 @@ func retype(v Val, t types.Type) Val {
 func (x *fnExec) safetyName(kind string) string { return funcKey(x.top) + ":safe#" + kind }
 
 func (x *fnExec) nilCheck(fr *frame, st *State, p Val, at ssa.Instruction) {
-	if !fr.safety || p.K != VPtr {
+	if !fr.safety || p.K != VPtr || p.Idx != nil {
 		return
 	}
 	if strings.HasPrefix(p.Prefix, "G:") {
@@ -759,6 +780,9 @@ func (x *fnExec) binop(fr *frame, st *State, op token.Token, a, b Val, ta, tb, t
 		default:
 			o = "bvurem"
 		}
+		if op == token.REM && y1.Op != "lit" && x != nil {
+			return scalar(x.opaqueRem(o, x1, y1), tr)
+		}
 		return scalar(BVBin(o, x1, y1), tr)
 	case token.AND:
 		return scalar(BVBin("bvand", x1, y1), tr)
@@ -790,6 +814,38 @@ func (x *fnExec) binop(fr *frame, st *State, op token.Token, a, b Val, ta, tb, t
 		return scalar(BVCmp(o, x1, y1), tr)
 	}
 	panic("binop " + op.String())
+}
+
+// opaqueRem keeps x % y with a symbolic divisor opaque: an uninterpreted term with lemma facts (range, identity below the
+// divisor, power-of-two mask form). The exact definition is kept aside and asserted only in the exact retry of a query.
+// The lemmas are theorems of bit-vector arithmetic; `sctpvc selftest` proves them with the solvers.
+func (x *fnExec) opaqueRem(op string, a, b *Term) *Term {
+	w := a.S.W
+	r := App(fmt.Sprintf("%s_%d", op, w), a.S, a, b)
+	_ = w
+	return r
+}
+
+func remLemmas(op string, a, b, r *Term) []*Term {
+	w := a.S.W
+	zero, one := BVU(0, w), BVU(1, w)
+	var nonneg, pos, lt func(p, q *Term) *Term
+	if op == "bvsrem" {
+		nonneg = func(p, _ *Term) *Term { return BVCmp("bvsge", p, zero) }
+		pos = func(p, _ *Term) *Term { return BVCmp("bvsgt", p, zero) }
+		lt = func(p, q *Term) *Term { return BVCmp("bvslt", p, q) }
+	} else {
+		nonneg = func(p, _ *Term) *Term { return True }
+		pos = func(p, _ *Term) *Term { return Not(Eq(p, zero)) }
+		lt = func(p, q *Term) *Term { return BVCmp("bvult", p, q) }
+	}
+	pre := And(nonneg(a, nil), pos(b, nil))
+	pow2 := Eq(BVBin("bvand", b, BVBin("bvsub", b, one)), zero)
+	return []*Term{
+		Implies(pre, And(nonneg(r, nil), lt(r, b))),
+		Implies(And(pre, lt(a, b)), Eq(r, a)),
+		Implies(And(pre, pow2), Eq(r, BVBin("bvand", a, BVBin("bvsub", b, one)))),
+	}
 }
 
 // shiftOp implements Go shift semantics: counts >= width give 0 (or sign fill).
